@@ -308,9 +308,43 @@ pub fn run() {
 
 /// replay of one recorded number
 pub fn replay_case(case: &serde_json::Value) -> String {
-  let sci = case.get("sci").and_then(|x| x.as_str()).or_else(|| case.get("origin").and_then(|x| x.as_str())).unwrap_or("");
-  // origin of an arithmetic result: `<level> <op> <a> <b>`; only numbers given in scientific form are replayed here
-  let text = sci.split(' ').last().unwrap_or(sci);
+  // an arithmetic result is recomputed from its origin `<level> <op> <a> [<b>]` and checked like any other number
+  if let Some(origin) = case.get("origin").and_then(|x| x.as_str()) {
+    let parts: Vec<&str> = origin.split(' ').filter(|p| !p.is_empty()).collect();
+    if parts.len() >= 3 {
+      let (op, a) = (parts[1], parts[2].parse::<FeelNumber>());
+      let b = parts.get(3).and_then(|t| t.parse::<FeelNumber>().ok());
+      let feel_text = match op {
+        "add" => "a + b",
+        "sub" => "a - b",
+        "mul" => "a * b",
+        "div" => "a / b",
+        "pow" => "a ** b",
+        "neg" => "-a",
+        "abs" => "abs(a)",
+        "floor" => "floor(a)",
+        "ceiling" => "ceiling(a)",
+        "decimal" => "decimal(a, b)",
+        "modulo" | "rem" => "modulo(a, b)",
+        "sqrt" => "sqrt(a)",
+        "exp" => "exp(a)",
+        "log" => "log(a)",
+        _ => "",
+      };
+      if let (Ok(a), false) = (a, feel_text.is_empty()) {
+        return match crate::engines::c02::prep(feel_text)(&crate::engines::c02::scope2(&a, b.as_ref())) {
+          Value::Number(n) => match check_number(&n, None, origin) {
+            None => format!("PASS the result of {} prints as {}", origin, short(&n.to_string())),
+            Some((k, w)) => format!("FAIL {}: {}", k, w),
+          },
+          other => format!("OBSERVED {} gives {}", origin, short(&other.to_string())),
+        };
+      }
+    }
+    return format!("OBSERVED origin {} is not replayed on its own", origin);
+  }
+  let sci = case.get("sci").and_then(|x| x.as_str()).unwrap_or("");
+  let text = sci;
   let n = match text.parse::<FeelNumber>() {
     Ok(n) => n,
     Err(_) => return format!("FAIL the finite decimal128 value {} is rejected by FeelNumber::from_str", text),
